@@ -332,6 +332,18 @@ theorem flight_ctx_ok : Gen.flightCtxFacts = [] := by decide
     classification does not see (the written memory is the backing array beyond `len`). -/
 theorem shared_appends_ok : Gen.sharedAppends = [] := by decide
 
+/-- **Pinned list of internal goroutines.**  The library's own (non-test) code starts no goroutine
+    (the single-flight goroutine lives in memoize): every call runs its callbacks (KeyFinder,
+    AlgorithmVerifier, KeyWrapperFinder, …) on the calling goroutine and in document order.  A new
+    `go` statement / errgroup / WaitGroup.Go breaks this obligation. -/
+theorem go_spawns_ok : Gen.goSpawns = [] := by decide
+
+/-- **No in-place mutation of caller-shared arguments.**  No function sorts / reverses / compacts /
+    clears / copies into / element-assigns / appends to a slice it reached from a key, header,
+    signing key or key wrapper passed in by the caller (read-only operations stay read-only on
+    shared objects). -/
+theorem shared_arg_mutations_ok : Gen.sharedArgMutations = [] := by decide
+
 /-- the seeded change: starter A, joiner B, A cancels before the answer — B still gets the value,
     A gets its context error, one request, no cancelled flight (non-vacuity, by evaluation) -/
 example :
